@@ -64,10 +64,20 @@ fn run_batch(jobs: Vec<Job>, limit_ms: u64, jtx: &mut mpsc::Sender<Vec<Job>>, dr
             let (a, b) = spawn_worker(); *jtx = a; *drx = b;
             let mut out = vec![];
             for j in jobs {
+                let j2 = j.clone();
                 jtx.send(vec![j]).unwrap();
                 match drx.recv_timeout(Duration::from_millis(limit_ms)) {
                     Ok(mut d) => out.push(d.pop().unwrap()),
-                    Err(_) => { let (a, b) = spawn_worker(); *jtx = a; *drx = b; out.push(Done { out: Err("Timeout".into()), words: 0, us: limit_ms * 1000 }); }
+                    Err(_) => {
+                        // confirm on a fresh worker with three times the limit before calling it a hang (a loaded machine can
+                        // starve a thread for a while; a genuine hang does not come back)
+                        let (a, b) = spawn_worker(); *jtx = a; *drx = b;
+                        jtx.send(vec![j2.clone()]).unwrap();
+                        match drx.recv_timeout(Duration::from_millis(3 * limit_ms)) {
+                            Ok(mut d) => out.push(d.pop().unwrap()),
+                            Err(_) => { let (a, b) = spawn_worker(); *jtx = a; *drx = b; out.push(Done { out: Err("Timeout".into()), words: 0, us: limit_ms * 1000 }); }
+                        }
+                    }
                 }
             }
             out
